@@ -415,6 +415,7 @@ func Run(t *testing.T, bind *Binding, spec *RunSpec) (obs *model.Obs) {
 	ch.KeepSites = spec.KeepSites
 	ctx := simrt.NewCtx(ch)
 	ctx.Parallel = spec.Parallel
+	ctx.NoSched = spec.Parallel && spec.Free
 	// event budget: generous multiple of what a start of this size needs (a fault-free
 	// start logs a few dozen events per component)
 	nc := len(spec.Prog.Instances) + len(spec.Prog.Procs) + len(spec.Prog.Scanners) + 12
@@ -606,6 +607,9 @@ func (e *env) main(inClose, closeReturned *bool) {
 			for _, r := range pr.Rules {
 				if r.Target == tgt.ID && r.At == cb && r.Action == "substitute" {
 					return e.substitute(r.Sub, tgt, r.SubType)
+				}
+				if r.Target == tgt.ID && r.At == cb && r.Action == "self" && cb == sdl.CbBeforeInst {
+					return cur // the registered instance itself: creation is short-circuited
 				}
 			}
 			return nil
